@@ -225,7 +225,8 @@ def export_obs(t, target: str):
     if target == "polars":
         return frame_obs(t >> pdt.export(pdt.Polars()))
     if target == "polars_lazy":
-        return frame_obs((t >> pdt.export(pdt.Polars(lazy=True))).collect())
+        lf = t >> pdt.export(pdt.Polars(lazy=True))
+        return frame_obs(lf.collect() if hasattr(lf, "collect") else lf)      # SQL backends return an eager frame
     if target == "pandas":
         pdf = t >> pdt.export(pdt.Pandas())
         return frame_obs(pl.from_pandas(pdf))
